@@ -127,3 +127,14 @@ Fixpoint failing_from (i : N) (l : list bool) : list N :=
   | false :: l' => i :: failing_from (N.succ i) l'
   end.
 Definition failing (l : list bool) : list N := failing_from 0%N l.
+
+(* str <= str on byte strings (Python compares code points; all names here are ASCII): lexicographic on character codes *)
+Fixpoint sleb (a b : string) : bool :=
+  match a, b with
+  | EmptyString, _ => true
+  | String _ _, EmptyString => false
+  | String x a', String y b' =>
+      if (N_of_ascii x <? N_of_ascii y)%N then true
+      else if (N_of_ascii y <? N_of_ascii x)%N then false
+      else sleb a' b'
+  end.
